@@ -733,8 +733,14 @@ class JRoot:
 
 
 def _get_path(t, path):
+    try:
+        note = E().note_json_object
+    except LookupError:             # outside a run (model evaluation, harness set-up)
+        note = lambda _t: None
+    note(t)
     for k in path:
         t = z3.Select(J.fields(t), k)
+        note(t)
     return t
 
 
